@@ -29,7 +29,7 @@ class Case:
 _compiled: dict[str, object] = {}
 
 
-class Alarm(Exception):
+class Alarm(BaseException):     # not an Exception: the code under test must not be able to swallow it
     pass
 
 
@@ -39,13 +39,16 @@ def _on_alarm(signum, frame):
 
 def with_timeout(fn, seconds=10):
     old = signal.signal(signal.SIGALRM, _on_alarm)
-    signal.alarm(seconds)
+    signal.setitimer(signal.ITIMER_REAL, seconds, 0.25)     # repeats, in case one delivery is swallowed
     try:
-        return fn()
+        try:
+            return fn()
+        finally:
+            signal.setitimer(signal.ITIMER_REAL, 0)
     except Alarm:
         return ('timeout', None)
     finally:
-        signal.alarm(0)
+        signal.setitimer(signal.ITIMER_REAL, 0)
         signal.signal(signal.SIGALRM, old)
 
 
@@ -68,9 +71,55 @@ def compile_grammar(g):
     return m
 
 
+_genparsers: dict[str, object] = {}
+
+
+def generated_parser(g):
+    """The parser class generated from the grammar text, exec'd (cached); a tuple on failure."""
+    import tatsu
+    txt = E.grammar_text(g)
+    if txt in _genparsers:
+        return _genparsers[txt]
+    try:
+        src = with_timeout(lambda: tatsu.to_python_sourcecode(txt, name='G'), 30)
+        if isinstance(src, tuple):
+            res = ('codegen-timeout',)
+        else:
+            ns: dict = {}
+            exec(compile(src, '<generated G>', 'exec'), ns)
+            res = ns['GParser']
+    except SyntaxError as e:
+        res = ('generated-source-invalid', str(e)[:200])
+    except RecursionError:
+        res = ('codegen-recursion',)
+    except Exception as e:  # noqa
+        res = ('codegen-error', type(e).__name__, str(e)[:200])
+    if len(_genparsers) > 2000:
+        _genparsers.clear()
+    _genparsers[txt] = res
+    return res
+
+
+def gen_outcome(c: Case):
+    """Outcome of the generated parser on the case (same canonical form as run_impl)."""
+    cls = generated_parser(c.g)
+    if isinstance(cls, tuple):
+        return cls, None
+    sem = E.make_semantics(c.semspec, [n for n, _, _ in c.g['rules']])
+
+    class _M:
+        def parse(self, text, start=None, semantics=None, **kw):
+            p = cls()
+            if start is None:
+                return p.parse(text, semantics=semantics, **kw)
+            return p.parse(text, start=start, semantics=semantics, **kw)
+    out = with_timeout(lambda: E.run_impl(_M(), c.text, c.start, c.settings, semantics=sem), 10)
+    return out, (getattr(sem, '_calls', None) if sem is not None else None)
+
+
 def impl_outcome(c: Case, model):
     sem = E.make_semantics(c.semspec, [n for n, _, _ in c.g['rules']])
-    out = with_timeout(lambda: E.run_impl(model, c.text, c.start, c.settings, semantics=sem), 10)
+    out = with_timeout(lambda: E.run_impl(model, c.text, c.start, c.settings, semantics=sem), 2)
     calls = getattr(sem, '_calls', None) if sem is not None else None
     return out, calls
 
@@ -91,6 +140,9 @@ def run_cases(mr: vlib.ModelRun, cases: list[Case], mode='f'):
             results[i] = (c, ('config-error', type(e).__name__, str(e)[:200]), None, None)
             continue
         io, calls = impl_outcome(c, m)
+        if io[0] == 'timeout':
+            results[i] = (c, io, ('recursion', None), None)    # no verdict possible: do not burn the model's budget either
+            continue
         reqs.append(req)
         idx.append(i)
         impls.append((io, calls))
